@@ -178,71 +178,3 @@ void h_ren_noeol(void)
 	__CPROVER_assert(0, "canary");
 #endif
 }
-
-/* ================================================================== BOUNDED: ren_position_reorder - prefix sums in VISUAL order (C17, C18) */
-/* lines of up to 4 characters, every reordering (any permutation handed back by dir_reorder), every
- * width function: the character at visual position v starts where the characters at visual
- * positions 0..v-1 end, each width taken for ITS character at ITS start column; pos[n] is the total */
-#define RR_MAX 3
-struct ghost_rr_in { int n; int perm[RR_MAX]; int w[RR_MAX]; char *chrs[RR_MAX]; } RR;	/* constants */
-static char g_rrtext[RR_MAX + 1];
-char **uc_chop(char *s, int *n)
-{
-	char **c = malloc((RR.n + 1) * sizeof(c[0]));
-	int i;
-	for (i = 0; i < RR_MAX; i++)
-		if (i < RR.n)
-			c[i] = RR.chrs[i];
-	*n = RR.n;
-	return c;
-}
-/* dir_reorder as seen by its caller (C18): pos[] becomes a permutation of 0..n-1 (pos[i] = visual position of character i) */
-void dir_reorder(char *s, int *pos)
-{
-	int i;
-	for (i = 0; i < RR_MAX; i++)
-		if (i < RR.n)
-			pos[i] = RR.perm[i];
-}
-/* the width of character j at column c: any function of both (tabs depend on the column) */
-#define RR_W(j, c)	((RR.w[j] + (c)) & 7)
-int ren_cwid_rr_contract(char *s, int pos)
-__CPROVER_requires(__CPROVER_same_object(s, g_rrtext) && 0 <= __CPROVER_POINTER_OFFSET(s) && __CPROVER_POINTER_OFFSET(s) < RR.n && pos >= 0)
-__CPROVER_assigns()
-__CPROVER_ensures(__CPROVER_return_value == RR_W(__CPROVER_POINTER_OFFSET(s), pos))
-;
-int *ren_position_reorder_frame_contract(char *s)
-__CPROVER_requires(s != 0)
-__CPROVER_assigns()
-;
-void h_ren_position_reorder_bounded(void)
-{
-	int i, j, v;
-	GHOST_INIT();
-	RR.n = nondet_int();
-	__CPROVER_assume(0 <= RR.n && RR.n <= RR_MAX);
-	for (i = 0; i < RR_MAX; i++) {
-		RR.perm[i] = nondet_int();
-		RR.w[i] = nondet_int();
-		RR.chrs[i] = g_rrtext + i;
-		__CPROVER_assume(0 <= RR.w[i] && RR.w[i] <= 8);
-		__CPROVER_assume(i >= RR.n || (0 <= RR.perm[i] && RR.perm[i] < RR.n));
-		for (j = 0; j < i; j++)
-			__CPROVER_assume(i >= RR.n || RR.perm[i] != RR.perm[j]);
-	}
-	xorder = 1;
-	int *pos = ren_position_reorder(g_rrtext);
-	/* reference layout: walk the visual positions from left to right */
-	int cpos = 0;
-	for (v = 0; v < RR_MAX; v++)
-		if (v < RR.n)
-			for (j = 0; j < RR_MAX; j++)
-				if (j < RR.n && RR.perm[j] == v) {
-					H_ASSERT(pos[j] == cpos, "ren_position_reorder: each character starts where the characters visually before it end");
-					cpos += RR_W(j, cpos);
-				}
-	H_ASSERT(pos[RR.n] == cpos, "ren_position_reorder: the last entry is the total width");
-#ifdef CANARY
-	__CPROVER_assert(0, "canary");
-#endif
-}
